@@ -432,6 +432,8 @@ def skew(v):
     :SymPy: supported
     """
     v = base.getvector(v, None, 'sequence')
+    if any(isinstance(x, np.unsignedinteger) for x in v):
+        v = [int(x) for x in v]  # negating unsigned NumPy scalars would wrap around
     if len(v) == 1:
         return np.array([
                 [ 0,   -v[0] ],
